@@ -582,5 +582,7 @@ def CASES(tier, seed):
         add('threaded', 'Hdf5Storage', 4, False, _parts(8, 2))
         add('threaded', 'Hdf5Storage', 3, True, _parts(3))
         add('threaded-fault', 'PickleStorage', 4, False, _parts(8, 4), fault=True)
-        add('threaded-deep', 'PickleStorage', 6, False, _parts(6, 6), deep=True)
+        # first operation `set` carries 2/3 of the paths: split it over the second and third operation as well
+        deep_parts = [[[0, 6], [j, 6], [k, 3]] for j in range(6) for k in range(3)] + [p for p in _parts(6, 6) if p[0][0] != 0]
+        add('threaded-deep', 'PickleStorage', 6, False, deep_parts, deep=True)
     return cases
